@@ -286,6 +286,15 @@ class LBCheck(BaseCheck):
           {'step': w.step, 'missing': sorted(map(str, truth - eligible)), 'extra': sorted(map(str, eligible - truth))})
 
     def chained_dispatch(done_req):
+      # the completion has reached the sink above the balancer: the balancer has let go of the request
+      ch_ = done_req['channel']
+      node_ = next((n_ for n_ in w.nodes if n_.channel is ch_ and n_.endpoint is not None), None)
+      if node_ is not None:
+        ob('load:')
+        if attributed_load(node_) != w.model_out(ch_):
+          violate('load:not-released-at-delivery', 'the completion of request %d was handed to the sink above the balancer while '
+                  'the balancer still attributes load %d to %r (%d of its requests are outstanding)' % (
+                    done_req['id'], attributed_load(node_), ch_, w.model_out(ch_)), {}, {'step': w.step})
       # from the response handler of the sink above the balancer: the completed request is not
       # outstanding any more, a follow-up dispatched right here must see that
       if not opened[0] or ss.pending or ss.loading or ss.closed or rng.random() > 0.1:
